@@ -85,7 +85,8 @@ static long kvl(const char *key, long def) { const char *v = kv(key); return v ?
 static unsigned long long kvu(const char *key, unsigned long long def) { const char *v = kv(key); return v ? strtoull(v, NULL, 0) : def; }
 unsigned char *kx_hexarg(const char *s, size_t *len) { if (!s || !strcmp(s, "-")) { *len = 0; return vh_exact("", 0); } { size_t n; unsigned char *p = vh_unhex(s, &n); unsigned char *q = vh_exact(p, n); free(p); *len = n; return q; } }
 
-static void logcb(void *c, int level, const char *msg) { (*(unsigned long *)c)++; if (getenv("KX_LOG")) { fprintf(stderr, "LOG[%d] %s\n", level, msg); if (getenv("KX_LOG")[0] == '2') printf("# LOG[%d] %s\n", level, msg); } }
+static int log_rc;   /* what the logger callback returns: 0, or a status code (a logger that cannot write) - the outcome of a call never depends on it */
+static int logcb(void *c, int level, const char *msg) { (*(unsigned long *)c)++; if (getenv("KX_LOG")) { fprintf(stderr, "LOG[%d] %s\n", level, msg); if (getenv("KX_LOG")[0] == '2') printf("# LOG[%d] %s\n", level, msg); } return log_rc; }
 
 static const KSI_Policy *policy_by_name(const char *n) {
 	if (!strcmp(n, "internal")) return KSI_VERIFICATION_POLICY_INTERNAL;
@@ -335,7 +336,8 @@ static int dispatch(void) {
 	if (!strcmp(c0, "opt")) { int o = opt_by_name(tok[2]); if (o < 0) return -1; return KSI_CTX_setOption(ctxs[atoi(tok[1])], o, (void *)(size_t)strtoull(tok[3], NULL, 0)); }
 	if (!strcmp(c0, "hdrcb")) { /* hdrcb <c> on|off: request header callback that fills in instance id and message id (KSI_CTX_setRequestHeaderCallback) */
 		int i = atoi(tok[1]); hdrcb_ctx = ctxs[i]; return KSI_CTX_setRequestHeaderCallback(ctxs[i], !strcmp(tok[2], "on") ? hdrcb : NULL); }
-	if (!strcmp(c0, "log")) { int i = atoi(tok[1]); int rc = KSI_CTX_setLoggerCallback(ctxs[i], logcb, &loglines[i]); if (rc) return rc; return KSI_CTX_setLogLevel(ctxs[i], atoi(tok[2])); }
+	if (!strcmp(c0, "log")) { /* log <c> <level> [status the callback returns] */
+		int i = atoi(tok[1]); int rc = KSI_CTX_setLoggerCallback(ctxs[i], logcb, &loglines[i]); if (rc) return rc; log_rc = ntok > 3 ? (int)strtol(tok[3], NULL, 0) : 0; return KSI_CTX_setLogLevel(ctxs[i], atoi(tok[2])); }
 	if (!strcmp(c0, "loglines")) { kx_out(" n=%lu", loglines[atoi(tok[1])]); return 0; }
 	if (!strcmp(c0, "sigparse")) {
 		/* sigparse <c> <s> <empty|internal|policyname> <hex> */
